@@ -230,6 +230,16 @@ def _python_stream(ctx: Ctx):
                 ctx.fail(f"Python fragments differing only in formatting denote different factors: {s1!r} vs {s2!r}", rp)
         except Exception as e:
             ctx.fail(f"{type(e).__name__} while parsing {s1!r} / {s2!r}", rp)
+        # a brace-quoted fragment may be padded with blanks inside the braces
+        core = rng.choice(["x", "a + b", "f(a)", "a * 2", "np.log(x)"])
+        pad1, pad2 = rng.choice(["", " ", "  ", "\t"]), rng.choice(["", " ", "  "])
+        b1, b2 = "{" + core + "} + c", "{" + pad1 + core + pad2 + "} + c"
+        ctx.oracle_runs += 1
+        try:
+            if Formula(b1) != Formula(b2):
+                ctx.fail(f"brace-quoted fragments differing only in padding denote different factors: {b1!r} vs {b2!r}", {"kind": "python-formatting", "a": b1, "b": b2})
+        except Exception as e:
+            ctx.fail(f"{type(e).__name__} while parsing {b1!r} / {b2!r}: {str(e)[:100]}", {"kind": "python-formatting", "a": b1, "b": b2})
         # formatting is whitespace BETWEEN Python tokens; the inside of a string literal is content, taken verbatim
         import ast as _ast
         lit1, lit2 = rng.choice([("a  b", "a b"), ("x   y", "x y"), ("  p", "p"), ("q ", "q"), ("m  n  o", "m n o")])
@@ -267,7 +277,7 @@ def _quoted_in_python(ctx: Ctx):
     from formulaic import Formula, model_matrix
     rng = ctx.fork("quoted-python")
     # (several of these sanitize to the same Python identifier: a_b for 'a b', 'a|b', 'a-b', 'a.b'; _1st ...)
-    names = ["a", "x", "m", "x y", "a|b", "a|b|c", "in", "for", "1st", "a b", "a  b", "é", "max", "e", "a-b", "a.b", "a_b", "_1st", "x-y"]
+    names = ["a", "x", "m", "x y", "a|b", "a|b|c", "in", "for", "1st", "a b", "a  b", "é", "max", "e", "a-b", "a.b", "a_b", "_1st", "x-y", "a\\d", "p\\n", "q\\1"]       # (the last three contain a backslash)
     n = 5
     df = pd.DataFrame({nm: [float((k * (i + 2)) % 7 + 1) for k in range(n)] for i, nm in enumerate(names)})
     funcs = {"np.log": np.log, "np.exp": lambda v: np.exp(v / 8), "max0": None, "np.sqrt": np.sqrt, "abs": np.abs}
